@@ -63,7 +63,7 @@ def run_types(tier, seed, shapes=None, per_shape=3):
     for sid, _ in shapes:
         meta[sid + '.L'] = {'op': 'L', 'shape': sid, 'off': 0, 'len': 0}
     for cid, m in m1.items():
-        meta[cid] = {'op': 'E', 'shape': m['shape'], 'off': 0, 'len': 320, 'kind': 'stage1'}
+        meta[cid] = {'op': 'E', 'shape': m['shape'], 'off': 0, 'len': 640, 'kind': 'stage1'}
     meta.update(m2)
     allc = layout + l1 + l2
     mres = vlib.run_model(runner, tl + allc, shards=16)
@@ -192,29 +192,37 @@ def run_property_types(pid, tier, seed):
     return {'violations': viol, 'coverage': cov}
 
 
+NEGATIVE_C17 = [
+    ('c17_wide_tag', 'a type declared portable = true with tag_type = "u16"'),
+    ('c17_native_tail', 'an unsized struct declared portable = true whose last field is FlatVec<u32, u32>'),
+    ('c17_native_variant', 'an unsized enum declared portable = true with a FlatVec<u16, u16> variant field'),
+]
+
+
 def run_negative_c17(pid, tier, seed):
-    """negative program: a portable enum with a tag wider than one byte must be refused by the macro; if it is
+    """negative programs: definitions that are not portable must be refused when declared portable = true; if one is
     accepted the program is run and must still report ALIGN == 1"""
+    import re
     hdir = os.path.join(vlib.VERIF, 'harness')
     vlib.build_harness(type_shapes(tier, seed))
-    rc, out = vlib.sh('cargo build --offline --example c17_wide_tag', cwd=hdir, timeout=900)
-    viol = []
-    src = open(os.path.join(hdir, 'examples', 'c17_wide_tag.rs')).read()
-    if rc == 0:
-        rc2, out2 = vlib.sh(os.path.join(vlib.CACHE, 'target', 'debug', 'examples', 'c17_wide_tag'), timeout=60)
-        import re
-        m = re.search(r'align=(\d+)', out2)
-        if not m or m.group(1) != '1':
-            viol.append({'what': 'a type declared portable = true with tag_type = "u16" is accepted, implements Portable '
-                                 'and reports %s' % out2.strip()[:80], 'case': 'program harness/examples/c17_wide_tag.rs',
-                         'program': src, 'impl': out2.strip(), 'concrete': True, 'source': 'negative program'})
-        outcome = 'accepted: ' + out2.strip()[:60]
-    elif 'portable' in out and 'panicked' in out:
-        outcome = 'refused by the macro'
-    else:
-        raise vlib.BuildError('negative program c17_wide_tag (unexpected compiler error)', out)
-    return {'violations': viol, 'coverage': {'negative_programs': [{'program': 'harness/examples/c17_wide_tag.rs',
-                                                                    'outcome': outcome}]}}
+    viol, cov = [], []
+    for name, what in NEGATIVE_C17:
+        rc, out = vlib.sh('cargo build --offline --example %s' % name, cwd=hdir, timeout=900)
+        src = open(os.path.join(hdir, 'examples', name + '.rs')).read()
+        if rc == 0:
+            rc2, out2 = vlib.sh(os.path.join(vlib.CACHE, 'target', 'debug', 'examples', name), timeout=60)
+            m = re.search(r'align=(\d+)', out2)
+            if not m or m.group(1) != '1':
+                viol.append({'what': '%s is accepted, implements Portable and reports %s' % (what, out2.strip()[:80]),
+                             'case': 'program harness/examples/%s.rs' % name, 'program': src, 'impl': out2.strip(),
+                             'concrete': True, 'source': 'negative program'})
+            outcome = 'accepted: ' + out2.strip()[:60]
+        elif ('portable' in out and 'panicked' in out) or 'Portable` is not satisfied' in out or 'E0277' in out:
+            outcome = 'refused at compile time'
+        else:
+            raise vlib.BuildError('negative program %s (unexpected compiler error)' % name, out)
+        cov.append({'program': 'harness/examples/%s.rs' % name, 'outcome': outcome})
+    return {'violations': viol, 'coverage': {'negative_programs': cov}}
 
 
 def replay(pid, path):
